@@ -28,11 +28,24 @@ def case(draw, tier="quick"):
     spec = draw(gen_atoms.typed_structure(min_atoms=1, max_atoms=6, max_terms=4, coords=draw(st.sampled_from(["in-cell", "anywhere"])), dups=True))
     if draw(hperm.integers(0, 11)) == 0:
         spec = gen_atoms.inflate(spec, 140 // len(spec["pos"]) + 1)         # > 127 atoms before, > 255 after replication
-    ck = draw(st.sampled_from(["as-is", "as-is", "rotated"]))
+    ck = draw(st.sampled_from(["as-is", "as-is", "rotated", "permuted", "primitive"]))
     if ck == "rotated":
         R = np.asarray(draw(gen_geom.random_rotation()))
         spec["cell"] = (np.array(spec["cell"]) @ R.T).tolist()
         spec["pos"] = (np.array(spec["pos"]).reshape(-1, 3) @ R.T).tolist()
+    elif ck == "permuted":
+        # the same crystal with the Cartesian axes relabelled (x -> y -> z -> x or a swap): a general 3x3 matrix with zeros on
+        # the diagonal
+        perm = draw(st.sampled_from([[1, 2, 0], [2, 0, 1], [1, 0, 2], [0, 2, 1]]))
+        spec["cell"] = np.array(spec["cell"])[:, perm].tolist()
+        spec["pos"] = np.array(spec["pos"]).reshape(-1, 3)[:, perm].tolist()
+    elif ck == "primitive":
+        # a primitive fcc / bcc cell: valid lattice vectors, none of them along a coordinate axis, zeros on the diagonal (fcc)
+        a0 = draw(st.sampled_from([3.6, 4.05, 5.43]))
+        C0 = np.array([[0, .5, .5], [.5, 0, .5], [.5, .5, 0]]) * a0 if draw(st.booleans()) else np.array([[-.5, .5, .5], [.5, -.5, .5], [.5, .5, -.5]]) * a0
+        fr = np.array(spec["pos"]).reshape(-1, 3) @ np.linalg.inv(np.array(spec["cell"], float))
+        spec["cell"] = C0.tolist()
+        spec["pos"] = (fr @ C0).tolist()
     big = len(spec["pos"]) > 60
     # the length unit is the caller's: Angstrom mostly, sometimes metres (LAMMPS "units si"), centimetres or picometres
     unit = draw(st.sampled_from([1.0] * 7 + [1e-10, 1e-8, 100.0]))
@@ -211,7 +224,7 @@ def oracle(c, stats):
     if c.get("on_lattice_point"):
         stats.count("all-atoms-on-a-lattice-point")
     nterms = sum(len(spec[k + "s"]) for k in M.KINDS)
-    stats.count("cell:%s" % ("rotated" if c["cell_kind"] == "rotated" else "tilted" if tilted else "ortho"))
+    stats.count("cell:%s" % (c["cell_kind"] if c["cell_kind"] != "as-is" else "tilted" if tilted else "ortho"))
     stats.count("factors:%s" % ("111" if c["r"] == [1, 1, 1] else "equal" if len(set(c["r"])) == 1 else "unequal"))
     stats.count("impropers:%s" % bool(spec["impropers"]))
     stats.count("terms-without-bonds:%s" % (nterms > 0 and not spec["bonds"]))
